@@ -69,6 +69,10 @@ def generate(seed, tier):
         if rng.random() < 0.25:
             case['B0'] = 0.0          # cash-only start: an explicit zero initial condition
         case['YD0'] = round(rng.uniform(5, 60), 2) if rng.random() < 0.5 else 0.0
+        if case['B0'] and case['V0'] and case['YD0'] and rng.random() < 0.4:
+            # no initial condition on bill holdings: the k=0 value follows from the portfolio equation
+            case['derive_B0'] = True
+            case['B0'] = case['V0'] * (case['l0'] + case['l1'] * r[0]) - case['l2'] * case['YD0']
     if which == 'ITER':
         case['V0'] = 80.0 if rng.random() < 0.5 else case['V0']
     return case
@@ -195,7 +199,7 @@ def run_builder(c, tol=1e-12):
         hh.SetEquationRightHandSide('L1', repr(c['l1']))
         hh.SetEquationRightHandSide('L2', repr(c['l2']))
         ctry['DEP'].SetExogenous('r', list(c['r']))
-        if c['B0'] or c['V0']:
+        if (c['B0'] or c['V0']) and not c.get('derive_B0'):
             hh.AddInitialCondition('DEM_DEP', c['B0'])
     model.MaxTime = c['T']
     model.EquationSolver.ParameterErrorTolerance = tol
